@@ -34,8 +34,11 @@ Inductive case :=
 (* predicates on outputs only *)
 | KGeRaw (rtol : Q) (raw obj : list Q)
 | KSignEnd (tol : Q) (ein : list Q)
-(* spectrum intensity: max(0.01 * cumtrapz |ps|) / g *)
-| KIntensity (g : Q) (ps : list Q) (out : Q) (rtol : Q).
+(* spectrum intensities on the implementation's own pseudo spectrum ps (at least 2 periods):
+   calc_asi = max(0.01 * cumulative_trapezoid |ps|) / g  (model: spectrum_intensity);
+   calc_vsi = the same without the division           (model: spectrum_intensity_raw) *)
+| KIntensity (g : Q) (ps : list Q) (out : Q) (rtol : Q)
+| KIntensityRaw (ps : list Q) (out : Q) (rtol : Q).
 
 Definition model_pseudo pi2 dt periods motion u v a := pseudo_spectra pi2 dt periods motion (rows3 u v a).
 
@@ -59,6 +62,7 @@ Definition check_case (c : case) : bool :=
   | KGeRaw rtol raw obj => (fix go (l1 l2 : list Q) := match l1, l2 with [], [] => true | r :: l1', o :: l2' => Qleb (r * (1 - rtol)) o && go l1' l2' | _, _ => false end) raw obj
   | KSignEnd tol ein => forallb (fun e => Qleb (- tol) e) ein
   | KIntensity g ps out rtol =>
-      let cum := cumtrapz 1 (map Qabs ps) in
-      qclose (rtol * Qabs out) ((1 # 100) * last cum 0 / g) out
+      Nat.leb 2 (length ps) && qclose (rtol * Qabs out) (spectrum_intensity (1 # 100) g ps) out && Qleb 0 out
+  | KIntensityRaw ps out rtol =>
+      Nat.leb 2 (length ps) && qclose (rtol * Qabs out) (spectrum_intensity_raw (1 # 100) ps) out && Qleb 0 out
   end.
